@@ -612,9 +612,18 @@ func (sb *symBytes) content() *term { return tSubstr(sb.buf.s, sb.off, sb.n) }
 
 // writeBuf replaces buf[at:at+len(s)] by s.
 func (in *interp) writeBuf(buf *byteBuf, at, s *term) {
-	in.noteBufWrite(buf)
 	total := tLen(buf.s)
 	n := tLen(s)
+	if in.frozenOn {
+		if _, fz := in.frozenBufs[buf]; fz {
+			old := in.rs(tSubstr(buf.s, at, n))
+			changed := true
+			if r, _ := in.p.feasible(tNot(tEq(old, in.rs(s)))); r == rUnsat {
+				changed = false
+			}
+			in.writes = append(in.writes, writeRec{Site: in.site(), Where: in.where(), Kind: "buf", Changed: changed, Stack: in.stack()})
+		}
+	}
 	end := tAdd(at, n)
 	buf.s = tConcat(tSubstr(buf.s, mkInt(0), at), s, tSubstr(buf.s, end, tSub(total, end)))
 }
